@@ -30,7 +30,7 @@ LEVEL_TEXT = ("Real end-to-end runs over generated frame layouts (spacing 1-5 st
 LEVEL_NOTE = "Tolerance 2e-5 relative (float32 fields accumulate u += dU over up to 5 steps). Trusts the harness's layout oracle and netCDF4."
 RULE = ("case = one layout (frame positions in steps, file partition, start, stop, direction, scalars, packing). Non-trivial: the run passes at least one frame step after the "
         "start (a hand-over happens); distinct by (positions, partition, start, stop, direction).")
-MANDATORY = ["two_simulations_alive_and_stepped_in_turn", "file_unavailable_at_the_moment_of_a_file_switch", "files_rewritten_with_another_layout_after_a_run", "same_single_fraction_requested_every_step", "warm_start_probe_steps", "warm_start_reaches_last_frame", "files_with_different_time_references", "frame_passed_while_state_empty", "forward", "reversed", "spacing_equals_dt", "irregular_spacing", "one_frame_per_file", "file_entered_in_middle", "start_on_frame", "start_between_frames",
+MANDATORY = ["one_velocity_component_steady_while_the_other_changes", "two_simulations_alive_and_stepped_in_turn", "file_unavailable_at_the_moment_of_a_file_switch", "files_rewritten_with_another_layout_after_a_run", "same_single_fraction_requested_every_step", "warm_start_probe_steps", "warm_start_reaches_last_frame", "files_with_different_time_references", "frame_passed_while_state_empty", "forward", "reversed", "spacing_equals_dt", "irregular_spacing", "one_frame_per_file", "file_entered_in_middle", "start_on_frame", "start_between_frames",
              "scalar_fields", "packed", "handover_steps_observed", "probe_steps", "reads_checked", "first_read_straddles_files", "time_units_hours_or_days", "packed_per_file_parameters"]
 ASSUMPTIONS = ["frames on the model time grid, strictly increasing, covering [start, stop] (as the property quantifies)"]
 TIMEOUT = {"quick": 900, "thorough": 3000}
@@ -139,6 +139,9 @@ def run_case(case: dict[str, Any], wd: Path) -> dict[str, Any]:
     sgn = -1 if rev else 1
     nfr = len(P)
     au, av = amps(nfr, case["salt"]), amps(nfr, case["salt"] + 7)
+    steady_v = bool(case["salt"] % 6 == 4)
+    if steady_v:
+        av = [av[0]] * nfr  # one component is the same in every frame (a steady background flow) while the other one changes
     scal_vals = {name: [float(100 * (n + 1) + 10 * j) for n in range(nfr)] for j, name in enumerate(["temp", "salt"][: case["nscalars"]])}
     t0 = C.T0
     w = dict(imax=10, jmax=9, N=2, t0=t0, frames=[p * dt for p in P], files=files,
@@ -231,6 +234,7 @@ def run_case(case: dict[str, Any], wd: Path) -> dict[str, Any]:
     desc = dict(frame_steps=step_of_frame, files=files, start_pos=S, stop_pos=E, reversed=rev, nsteps=nsteps, amps_u=au)
     gaps = list(np.diff(P))
     sit["reversed" if rev else "forward"] = 1
+    sit["one_velocity_component_steady_while_the_other_changes"] = int(steady_v and any(g_ >= 2 for g_ in np.diff(P)))
     sit["spacing_equals_dt"] = int(1 in gaps)
     sit["irregular_spacing"] = int(len(set(gaps)) > 1)
     sit["one_frame_per_file"] = int(all(c == 1 for c in files) and nfr > 1)
